@@ -43,8 +43,17 @@ fn any_rec(t: u8) -> Rec {
     Rec { t, id: nd::any_u32() as usize, rating }
 }
 
-fn fresh_from(sh: &Shadow) -> Store {
+/// `Store::new()` with room for MAXN records: growing a vector of large elements from capacity
+/// zero trips Kani's realloc model (spurious `__rust_dealloc` layout failure), and the capacity
+/// of `records` is not observable.
+fn new_store() -> Store {
     let mut s = Store::new();
+    s.records = Vec::with_capacity(MAXN);
+    s
+}
+
+fn fresh_from(sh: &Shadow) -> Store {
+    let mut s = new_store();
     s.limit = sh.limit;
     let mut i = 0;
     while i < sh.n {
@@ -117,7 +126,7 @@ fn apply(op: u8, live: &mut Store, sh: &mut Shadow) {
 
 /// A history of up to five operations on a new store (255 = no operation), then `agree`.
 pub fn history<const O1: u8, const O2: u8, const O3: u8, const O4: u8, const O5: u8>() {
-    let mut live = Store::new();
+    let mut live = new_store();
     let mut sh = Shadow { recs: [Rec { t: 0, id: 0, rating: 0 }; MAXN], n: 0, limit: live.limit };
     if O1 != 255 { apply(O1, &mut live, &mut sh); }
     if O2 != 255 { apply(O2, &mut live, &mut sh); }
@@ -132,7 +141,7 @@ pub fn history<const O1: u8, const O2: u8, const O3: u8, const O4: u8, const O5:
 /// C12 selection: N records with the given concrete titles and symbolic ratings, limit LIMIT.
 pub fn top(titles: &[u8], limit: usize) {
     let n = titles.len();
-    let mut live = Store::new();
+    let mut live = new_store();
     live.limit = limit;
     let mut recs = [Rec { t: 0, id: 0, rating: 0 }; MAXN];
     let mut i = 0;
